@@ -330,7 +330,7 @@ def _step(ctx, cls):
             seen = ctx.__dict__.setdefault("_unsolved_seen", set())
             if key not in seen:
                 seen.add(key)
-                if _paired_exact_reuse(ctx, it, f, stale, p, parts):
+                if _paired_exact_reuse(ctx, it, ctx.P.functions.get(getattr(sol[0], "func", None)) or f, stale, p, parts):  # the function whose loop carries the system (an override may only delegate to it)
                     ctx.ok(
                         f"{ctx.prop}-s", RES + f"{cls}.simulate:system carried over [{tag[:120]}]", f"{f.file}:{sol[0].line}",
                         "the kept system is stored together with (a copy of) the coefficients it was assembled from and is reused only when this step's coefficients are exactly equal to them: it is then this step's system",
